@@ -35,21 +35,23 @@ type LoadConfig struct {
 
 // Program is the loaded, type-checked (and optionally SSA-built) repository.
 type Program struct {
-	Cfg     LoadConfig
-	Fset    *token.FileSet
-	All     []*packages.Package          // root packages (./...)
-	ByPath  map[string]*packages.Package // every package in the import graph
-	SSA     *ssa.Program                 // nil when NoSSA
-	SSAPkg  map[string]*ssa.Package      // by import path
-	cgOnce  sync.Once
-	cgVTA   *callgraph.Graph
-	cgCHA   *callgraph.Graph
-	allFns  map[*ssa.Function]bool
-	byName  map[string]*ssa.Function
-	nameOf  map[*ssa.Function]string
-	anonIdx map[*ssa.Function]int
-	kg      *KGraph
-	Renamed []string // declared names mapped back to the symbol table's (normalize.go)
+	Cfg                       LoadConfig
+	Fset                      *token.FileSet
+	All                       []*packages.Package          // root packages (./...)
+	ByPath                    map[string]*packages.Package // every package in the import graph
+	SSA                       *ssa.Program                 // nil when NoSSA
+	SSAPkg                    map[string]*ssa.Package      // by import path
+	cgOnce                    sync.Once
+	cgVTA                     *callgraph.Graph
+	cgCHA                     *callgraph.Graph
+	allFns                    map[*ssa.Function]bool
+	byName                    map[string]*ssa.Function
+	nameOf                    map[*ssa.Function]string
+	anonIdx                   map[*ssa.Function]int
+	kg                        *KGraph
+	Despilled, RecoverRemoved int            // despill.go
+	errParam                  map[string]int // errdisc.go: memo of paramErrHandled
+	Renamed                   []string       // declared names mapped back to the symbol table's (normalize.go)
 }
 
 // Load loads ./... of the repository's current working tree.
@@ -146,6 +148,15 @@ func Load(lc LoadConfig) (*Program, error) {
 				prog.SSAPkg[sp2.Pkg.Path()] = sp2
 			}
 		}
+		// undo go/ssa's spilling of results in functions that defer (despill.go)
+		prog.allFns = ssautil.AllFunctions(sp)
+		keto := map[*ssa.Function]bool{}
+		for fn := range prog.allFns {
+			if pk := FuncPkg(fn); pk != nil && IsKeto(pk) {
+				keto[fn] = true
+			}
+		}
+		prog.Despilled, prog.RecoverRemoved = despill(sp, keto)
 	}
 	return prog, nil
 }
@@ -214,7 +225,9 @@ func (p *Program) IsTestFile(pos token.Pos) bool {
 
 func (p *Program) buildCG() {
 	p.cgOnce.Do(func() {
-		p.allFns = ssautil.AllFunctions(p.SSA)
+		if p.allFns == nil {
+			p.allFns = ssautil.AllFunctions(p.SSA)
+		}
 		p.cgCHA = cha.CallGraph(p.SSA)
 		p.cgVTA = vta.CallGraph(p.allFns, p.cgCHA)
 	})
